@@ -77,3 +77,5 @@ def replay(ctx, payload):
     real = R.real_remap(inp["input"], inp["ptx"], inp["bpt"])
     msgs = oracle(inp, real)
     return {"fails": bool(msgs), "oracle": msgs, "real": real}
+
+LEVEL_NOTE = "; ".join(TRUSTED) + '. NEW: the geometry half end to end (Properties/C09Route.lean): `store_tag_stable`, `piece_tag` (which Pretext piece created which result; tag by FalseDuplicate > Haplotig > Contaminant-or-Target-mode), `remap_routes_store` (every result and every left-over lies in the unique assembly keyed tag-else-haplotype, and every output fragment comes from one), `tagged_piece_never_curated` (under the decidable `NoTagWordHaplotype`, the F16 side condition), `target_mode_leftovers`, `haplotype_leftovers_*` (F10 stated as it is)'
